@@ -11,6 +11,7 @@ done
 for f in $(git ls-files -u | awk '{print $4}' | sort -u); do
   case "$f" in MANIFEST.json|known_findings.json) ;; *) python3 tools/resolve_trivial.py "$f" && git add "$f" || true;; esac
 done
+python3 tools/fix_lakefile.py; git add lean/lakefile.toml
 python3 tools/mkmanifest.py
 git add MANIFEST.json known_findings.json
 if git ls-files -u | grep -q .; then
